@@ -113,7 +113,7 @@ CHECKS = {
              "repetition); hence c04_recordsEq_refl / _symm / _trans and c04_recordsEq_of_same_members. ProvDocument.__eq__ (own records, bundle "
              "count, bundle-wise equality by identifier): c04_docEq_symm and c04_docEq_trans, given that a document's bundle identifiers are "
              "pairwise distinct by URI (pigeonhole over the two bundle tables). Every comparison is also run on the implementation for every "
-             "generated pair in both argument orders (after read-only accessors have been exercised on one side); an independent content oracle decides the expected answer for 15 edit kinds, including in-place edits after a record has been hashed. Document level (Props/C04D): c04_docEq_iff - d1 == d2 holds exactly when the top-level record sets agree, the bundle identifiers agree and each pair of same-named bundles has the same record set.",
+             "generated pair in both argument orders (after read-only accessors have been exercised on one side); an independent content oracle decides the expected answer for 15 edit kinds, including in-place edits after a record has been hashed. Document level (Props/C04D): c04_docEq_iff - d1 == d2 holds exactly when the top-level record sets agree, the bundle identifiers agree and each pair of same-named bundles has the same record set. Hash (Props/C04H): c04_eq_hash - equal records present the same arguments to hash (type, identifier URI, attribute set with numbers by rational value, datetimes by time-line position, names by URI); the model's verdict is compared one way with the real hashes on every compared record pair.",
         note=A_COMMON + " Floats are assumed to carry the non-zero denominator float.as_integer_ratio() always gives (hypothesis RecOk). "
              "Distinctness of bundle identifiers inside one document is a hypothesis of the document-level theorems (it is the key set of "
              "a dict; C18 proves the corresponding coherence for records); __hash__ consistency is checked by the oracle only.",
